@@ -345,3 +345,87 @@ func record(r *hk.Run, o obs) {
 	}
 	r.Add(hk.Case{Coq: coq, Desc: map[string]interface{}{"kind": o.Stack, "obs": o}}, key, nontrivial)
 }
+
+func recordH3(r *hk.Run, o h3obs) {
+	if o.Spec.BadHost {
+		// SendRequestHeader fails (the step a cancellation hits in the window between opening the
+		// stream and writing the header): the call must fail and the request body must be closed
+		where := "h3:" + o.Spec.Name
+		if o.Harness != "" {
+			r.Fail(hk.Failure{Sig: "harness:" + where, What: o.Harness, Input: o})
+		} else {
+			if o.Call == "resp" {
+				r.Fail(hk.Failure{Sig: "no-error:" + where, What: "a request whose header cannot be written succeeded", Input: o})
+			}
+			if !o.ReqBodyClosed {
+				r.Fail(hk.Failure{Sig: "body-not-closed:" + where, What: "the request body was never closed after SendRequestHeader failed", Input: o})
+			}
+			if len(o.Leaked) > 0 || !o.Quiesced {
+				r.Fail(hk.Failure{Sig: "leak:" + where, What: "library goroutines left: " + strings.Join(append(o.Stuck, o.Leaked...), " | "), Input: o})
+			}
+		}
+		r.Count("h3:send-header-fails")
+		r.Add(hk.Case{Desc: map[string]interface{}{"kind": "h3", "obs": o}}, "h3|badhost", true)
+		return
+	}
+	judge(r, obs{Stack: "h3", Spec: h1spec{Name: o.Spec.Name}, Kind: o.Kind, StepName: o.StepName, Racy: o.Racy,
+		Call: o.Call, CallErr: o.CallErr, Body: o.Body, BodyErr: o.BodyErr, Returned: o.Returned, Quiesced: o.Quiesced,
+		Stuck: o.Stuck, Leaked: o.Leaked, ReqBody: o.ReqBody, ReqBodyClosed: o.ReqBodyClosed, ReadsAfter: o.ReadsAfter,
+		FollowOK: o.FollowOK, FollowErr: o.FollowErr, Complete: o.Complete, Harness: o.Harness})
+	if o.Harness == "" && o.Returned && o.Arrived && !o.Complete && !o.Racy && o.Kind != "none" && !realTimer(o.Kind) && !o.PeerSawCancel {
+		r.Fail(hk.Failure{Sig: fmt.Sprintf("peer-not-told:h3:%s:%s:after=%s", o.Spec.Name, o.Kind, o.StepName),
+			What: "the request stream was not cancelled towards the peer (no STOP_SENDING / RESET_STREAM): the handler kept running", Input: o})
+	}
+	r.Count("h3:" + o.Kind)
+	r.Count("h3:scenario:" + o.Spec.Name)
+	r.Count(fmt.Sprintf("h3:call=%s,body=%s", o.Call, o.Body))
+	key := fmt.Sprintf("h3|%s|%s|%d|%v", o.Spec.Name, o.Kind, o.Pos, o.Racy)
+	coq := ""
+	if o.Harness == "" && o.Returned {
+		coq = emitH3(o)
+	}
+	r.Add(hk.Case{Coq: coq, Desc: map[string]interface{}{"kind": "h3", "obs": o}}, key, o.Pos > 0 && !o.Complete && o.Kind != "none")
+}
+
+func emitH3(o h3obs) string {
+	if o.Kind == "client-timeout" {
+		if o.Call == "cause:deadline" {
+			o.Call = "cause:timeout"
+		}
+		if o.Body == "cause:deadline" {
+			o.Body = "cause:timeout"
+		}
+	}
+	var call, body string
+	if o.Call == "resp" {
+		call = "OResp"
+	} else if e, ok := coqErr(o.Call); ok {
+		call = "(OErr " + e + ")"
+	} else {
+		return ""
+	}
+	switch o.Body {
+	case "none":
+		body = "ONone"
+	case "eof":
+		body = "OEof"
+	default:
+		if e, ok := coqErr(o.Body); ok {
+			body = "(OBErr " + e + ")"
+		} else {
+			return ""
+		}
+	}
+	told := "None"
+	// whether the handler saw the cancellation is only meaningful while it was still running
+	if o.Arrived && !o.Complete && !o.Racy && !realTimer(o.Kind) && o.Kind != "none" {
+		told = "(Some " + hk.CoqBool(o.PeerSawCancel) + ")"
+	}
+	inj := []string{}
+	if cause3(o.Kind) != "" {
+		inj = []string{cause3(o.Kind)}
+	}
+	ob := fmt.Sprintf("(mkObs3 %s %s %s %s %s %s)", call, body, told, hk.CoqBool(o.ReqBody), hk.CoqBool(o.ReqBodyClosed), hk.CoqBool(o.FollowOK))
+	return fmt.Sprintf("H3Case (mkCfg3 %s %s) %s %s %s %s %s", hk.CoqBool(o.Spec.Reuse), hk.CoqBool(o.Spec.Upload), hk.CoqBool(realTimer(o.Kind)),
+		coqLabels(o.Pre), coqLabels(o.RacyLab), coqLabels(inj), ob)
+}
